@@ -261,8 +261,13 @@ func (sc *c20Scenario) observe(inv *c20Inv, r *http.Request) {
 
 func (sc *c20Scenario) serve(w http.ResponseWriter, r *http.Request, closureIdx int) {
 	inv := sc.root.cur()
-	if inv == nil || (closureIdx >= 0 && inv.idx != closureIdx) {
-		panic("harness: goroutine attribution is broken")
+	if inv == nil {
+		panic("harness: a handler runs on a goroutine that serves no request")
+	}
+	if closureIdx >= 0 && inv.idx != closureIdx {
+		// mode w1: every request goes through its own mw.Wrap(handler_i); the handler wrapped for
+		// another request was invoked for this one
+		inv.failf("wrong-handler", "the handler that was wrapped for request %d was invoked for request %d (one LogMiddleware wrapped around several handlers)", closureIdx, inv.idx)
 	}
 	inv.enter = sc.root.clock.Add(1)
 	inv.ptrs[1] = unsafe.Pointer(r)
